@@ -4,15 +4,20 @@ From LV Require Import Base.Sexp Base.Bytes Html.Script.
 Import ListNotations.
 
 (** case: (1 mode escset script) -> the session log, oldest entry first.
+    mode 0: SsrSharedContext::new(), 1: ::new_islands(), 4: ::default() (= new()),
+    2: the context and the <script> wrapping of build_response (mode 3, the same with a random
+    nonce, is not modelled). Component-level commands are spelled out first ([expand]).
     [escset] lists the code points real Rust's Debug writes as \u{..} (obtained from the real
     formatter by the generator). (0 text) asks the harness for exactly that classification; the
     model has no Unicode tables and answers (). *)
 Definition run_C12 (c : sexp) : sexp :=
   match as_Z (nth_s 0 c) with
   | 1%Z =>
-      let isl := as_bool (nth_s 1 c) in
+      let mode := as_Z (nth_s 1 c) in
+      let isl := Z.eqb mode 1 in
       let escset := as_bytes (nth_s 2 c) in
       let esc := fun x => existsb (N.eqb x) escset in
-      Lst (rev (log (session esc isl (as_list (nth_s 3 c)))))
+      let l := rev (log (session esc isl (expand (as_list (nth_s 3 c))))) in
+      Lst (if Z.eqb mode 2 then map wrap_entry l else l)
   | _ => Lst []
   end.
